@@ -339,3 +339,4 @@ def run(ctx):
   nd = defs.check_def_init(ctx, [ix.cls("ttconv.stl.datafile:DataFile"), ix.cls("ttconv.stl.tf:_Context"), ix.cls("ttconv.stl.tf:_TextFieldIterator")], rule="DEF-init")
   ctx.floor("DEF-init", "instance attributes of the STL classes", nd, 8)
   defs.check_def_local(ctx, fs, rule="DEF-local", exempt=common.DEF_EXEMPT)
+  common.check_history_independence(ctx, [n for n in ctx.ix.modules if n.startswith("ttconv.stl")] + ["ttconv.time_code"])
